@@ -23,7 +23,10 @@ REGISTRY = dict(
           "sub-environment i equals i run alone on its own actions (own observation, reward, done; no cross-talk); at an episode end the returned observation is the first "
           "observation of the next episode, terminal_observation the last of the finished one, TimeLimit.truncated = truncated and not terminated, reset_infos[i] that reset's "
           "info; seeds s+i/options reach exactly the matching sub-environment at the next reset, once (None afterwards and on automatic resets). "
-          "Tie: regenerated flag/guard fragments + correspondence on DummyVecEnv and SubprocVecEnv over all space kinds."),
+          "Extension: attribute lookup through any chain of VecEnvWrapper objects (unique holder -> value, several -> refused naming the hidden one, outermost wins); "
+          "the per-env step of Model/OnPolicyCollect.v (C04/C06) is the projection of this model's sub_step. "
+          "Tie: regenerated flag/guard fragments + correspondence on DummyVecEnv and SubprocVecEnv over all space kinds; wrapper getattr chains and indexed get_attr/set_attr/env_method/"
+          "env_is_wrapped calls on DummyVecEnv by correspondence."),
     note=("Trusted: Coq 8.16.1 kernel (vm_compute, no native_compute), translate/py2coq.py + specs/vecenv.py, harness/c01.py + scripted_envs.py, Python/numpy/gymnasium/multiprocessing. "
           "Tied by correspondence only (not translated): the loops over env_idx / remotes, _save_obs/_obs_from_buf/_stack_obs/dict_to_obs per-kind plumbing, "
           "seed()'s list comprehension, the `if options` guard of reset(). Quick tier runs SubprocVecEnv with start method fork only (forkserver/spawn in thorough). "
@@ -359,6 +362,197 @@ def diff_model(impl, model):
     return probs
 
 
+
+# ---------------------------------------------------------------- extension A: attribute lookup through VecEnvWrapper chains
+
+ATTR_HEADER = """From Coq Require Import List ZArith Bool.
+From SB3V Require Import Model.VecAttr.
+Import ListNotations.
+"""
+ATTR_NAMES = ["zz_attr_a", "zz_attr_b", "zz_attr_c", "zz_attr_d"]
+
+
+def gen_attr_case(rng, idx):
+    depth = rng.randint(1, 4)
+    p = rng.choice([0.2, 0.35, 0.5])
+    layers = [{a: rng.randint(1, 999) for a in ATTR_NAMES if rng.random() < p} for _ in range(depth)]
+    base = {a: rng.randint(1, 999) for a in ATTR_NAMES if rng.random() < p}
+    return {"layers": layers, "base": base, "class_attr": [rng.random() < 0.3 for _ in range(depth)], "id": idx}
+
+
+def run_attr_impl(case):
+    """getattr(outermost wrapper, name) for every name: ["value", v] | ["ambiguous", index of the hidden object] | ["noattr"]"""
+    from harness import scripted_envs as se
+    from stable_baselines3.common.vec_env import DummyVecEnv
+    from stable_baselines3.common.vec_env.base_vec_env import VecEnvWrapper
+
+    script = {"episodes": [{"reset_tag": 1, "reset_info": 0, "steps": [{"tag": 2, "r4": 0, "term": True, "trunc": False, "info": 0}]}]}
+    venv = DummyVecEnv([se.make_env_fn(script)])
+    for k, v in case["base"].items():
+        setattr(venv, k, v)
+    depth = len(case["layers"])
+    names = {}
+    # layers are listed outermost first: build from the innermost
+    for li in range(depth - 1, -1, -1):
+        attrs = case["layers"][li]
+        as_class = case["class_attr"][li]
+
+        body = {"reset": lambda self: self.venv.reset(), "step_wait": lambda self: self.venv.step_wait()}
+        if as_class:
+            body.update(attrs)          # class attributes are attributes of the wrapper too
+        cls = type(f"W{li}", (VecEnvWrapper,), body)
+        names[f"{cls.__module__}.W{li}"] = li
+        venv = cls(venv)
+        if not as_class:
+            for k, v in attrs.items():
+                setattr(venv, k, v)
+    names["stable_baselines3.common.vec_env.dummy_vec_env.DummyVecEnv"] = depth
+    out = {}
+    try:
+        for a in ATTR_NAMES:
+            try:
+                out[a] = ["value", getattr(venv, a)]
+            except AttributeError as e:
+                msg = str(e)
+                if "ambiguous and hides attribute from " in msg:
+                    out[a] = ["ambiguous", names.get(msg.split("ambiguous and hides attribute from ")[1].strip(), msg)]
+                else:
+                    out[a] = ["noattr"]
+    finally:
+        venv.close()
+    return out
+
+
+def attr_oracle(case):
+    """from the docstrings: the outermost object's own attribute wins; otherwise the attribute must have exactly one
+    holder among the inner objects, else the lookup is refused naming the second holder from the outside"""
+    out = {}
+    objs = case["layers"] + [case["base"]]
+    for a in ATTR_NAMES:
+        if a in objs[0]:
+            out[a] = ["value", objs[0][a]]
+            continue
+        holders = [(i, o[a]) for i, o in enumerate(objs) if a in o]
+        out[a] = ["noattr"] if not holders else (["value", holders[0][1]] if len(holders) == 1 else ["ambiguous", holders[1][0]])
+    return out
+
+
+def attr_exprs(case):
+    from harness.common import coq_list, coq_Z
+
+    def amap(d):
+        return coq_list([f"({coq_Z(ATTR_NAMES.index(k))}, {coq_Z(v)})" for k, v in d.items()])
+
+    layers = coq_list([amap(l) for l in case["layers"]])
+    return [f"py_getattr {coq_Z(i)} {layers} {amap(case['base'])}" for i in range(len(ATTR_NAMES))]
+
+
+def attr_model(vals):
+    out = {}
+    for a, v in zip(ATTR_NAMES, vals):
+        out[a] = ["noattr"] if v == "NoAttribute" else (["value", v[1]] if v[0] == "Value" else ["ambiguous", v[1]])
+    return out
+
+
+def run_attr_stream(chk, n_cases):
+    cases = [gen_attr_case(chk.rng, k) for k in range(n_cases)]
+    impls = []
+    for c in cases:
+        try:
+            impls.append(run_attr_impl(c))
+        except Exception as e:  # noqa: BLE001
+            impls.append({"crash": f"{type(e).__name__}: {e}"})
+    exprs = [e for c in cases for e in attr_exprs(c)]
+    vals = common.coq_eval_many("C01a", ATTR_HEADER, exprs, shard=400, procs=4)
+    k = len(ATTR_NAMES)
+    stats = {"cases": len(cases), "value": 0, "ambiguous": 0, "noattr": 0}
+    for i, (c, im) in enumerate(zip(cases, impls)):
+        if "crash" in im:
+            chk.violation("oracle-wrapper-getattr-crash", im["crash"], {"attr_case": c}, found_input=True)
+            return stats
+        md = attr_model(vals[i * k:(i + 1) * k])
+        orc = attr_oracle(c)
+        for a in ATTR_NAMES:
+            stats[im[a][0]] = stats.get(im[a][0], 0) + 1
+        if im != orc:
+            a = next(a for a in ATTR_NAMES if im[a] != orc[a])
+            chk.violation(f"oracle-wrapper-getattr-{orc[a][0]}", f"getattr(wrapper, {a}): impl {im[a]} expected {orc[a]} for layers {c['layers']} base {c['base']}",
+                          {"attr_case": c, "impl": im, "expected": orc}, found_input=True)
+            return stats
+        if im != md:
+            a = next(a for a in ATTR_NAMES if im[a] != md[a])
+            chk.violation("model-correspondence-wrapper-getattr", f"getattr(wrapper, {a}): impl {im[a]} model {md[a]}",
+                          {"attr_case": c, "correspondence": "harness/c01.py vs Model.VecAttr.py_getattr"}, found_input=False)
+            return stats
+    return stats
+
+
+# ---------------------------------------------------------------- extension B: attribute / method calls with indices on DummyVecEnv
+
+def run_dummy_calls_stream(chk, n_cases):
+    """DummyVecEnv (under 0-2 pass-through VecEnvWrapper layers) driven by reset/step/seed/set_options/get_attr/set_attr/
+    env_method/env_is_wrapped with indices None|int|list, compared with the for-i-in-targets loop of Model/Subproc.v
+    (run_dummy_scripted = dhistory) on the same scripts and calls"""
+    import warnings
+
+    from harness import c02
+    from stable_baselines3.common.vec_env import DummyVecEnv
+    from stable_baselines3.common.vec_env.base_vec_env import VecEnvWrapper
+
+    class Pass(VecEnvWrapper):
+        def reset(self):
+            return self.venv.reset()
+
+        def step_wait(self):
+            return self.venv.step_wait()
+
+    cases = [c02.gen_case(chk.rng, k) for k in range(n_cases)]
+    traces = []
+    with warnings.catch_warnings():
+        warnings.simplefilter("ignore")
+        for k, c in enumerate(cases):
+            kw = dict(obs_kind=c["obs_kind"], act_kind=c["act_kind"])
+            venv = DummyVecEnv([c02.make_fn(sc, c["wrapped"][i], env_id=i, **kw) for i, sc in enumerate(c["scripts"])])
+            for _ in range(k % 3):
+                venv = Pass(venv)
+            try:
+                tr = []
+                for call in c["calls"]:
+                    res = c02.do_call(venv, c, call)
+                    if call[0] in ("reset", "step") and isinstance(venv, VecEnvWrapper):
+                        res["reset_infos"] = venv.unwrapped.reset_infos
+                    tr.append(c02.decode_call(c, venv, call, res))
+                traces.append([e for t in tr for e in t])
+            except Exception as e:  # noqa: BLE001
+                traces.append([["crash", f"{type(e).__name__}: {e}"]])
+            finally:
+                venv.close()
+    from harness import scripted_envs as se
+    from harness.common import coq_bool, coq_list
+
+    exprs = []
+    for c in cases:
+        scs = "[" + "; ".join(se.coq_script(s) for s in c["scripts"]) + "]"
+        exprs.append(f"run_dummy_scripted {scs} {coq_list(c['wrapped'], coq_bool)} {c02.coq_calls(c)}")
+    vals = common.coq_eval_many("C01b", c02.HEADER, exprs, shard=60, procs=4)
+    stats = {"cases": len(cases), "replies": 0}
+    for c, tr, v in zip(cases, traces, vals):
+        ml = c02.model_log(v)
+        stats["replies"] += len(ml)
+        if tr != ml:
+            j = next((j for j, (a, b) in enumerate(zip(tr, ml)) if a != b), min(len(tr), len(ml)))
+            a = tr[j] if j < len(tr) else None
+            b = ml[j] if j < len(ml) else None
+            kind = (b or a or ["?", ["?"]])[1][0]
+            # the model's loop is the documented semantics [f(envs[i]) for i in indices]; a disagreement on an attribute / method call
+            # is a concrete failing call sequence for DummyVecEnv
+            chk.violation(f"oracle-dummy-indexed-call-{kind}", f"reply {j}: DummyVecEnv {a} vs loop over indices {b}",
+                          {"case": c, "impl_replies": tr[:j + 1][-4:], "correspondence": "harness/c01.py vs Model.Subproc.run_dummy_scripted"},
+                          found_input=kind in ("ResAttr", "ResNone", "ResMethod", "ResBool"))
+            return stats
+    return stats
+
+
 # ---------------------------------------------------------------- driver
 
 def valid_ops(ops):
@@ -402,7 +596,7 @@ def main():
     quick = chk.tier == "quick"
     cases = load_corpus()
     n_corpus = len(cases)
-    n_dummy, n_sub = (700, 40) if quick else (5000, 300)
+    n_dummy, n_sub = (500, 40) if quick else (5000, 300)
     for k in range(n_dummy):
         cases.append(gen_case(chk.rng, k, "dummy"))
     methods = ["fork"] if quick else ["fork", "forkserver", "spawn"]
@@ -448,8 +642,13 @@ def main():
             chk.violation(f"model-correspondence-{dm[0][0]}-{c['backend']}", dm[0][1],
                           {"case": c, "problems": [list(p) for p in dm], "correspondence": "harness/c01.py vs Model.VecEnv.run_scripted"}, found_input=False)
             break
-    chk.coverage["evaluations"] = len(cases)
-    chk.coverage["traces_validated_against_impl"] = len(cases)
+    n_attr, n_calls = (150, 60) if quick else (1500, 400)
+    attr_stats = run_attr_stream(chk, n_attr) if not chk.violations else {}
+    calls_stats = run_dummy_calls_stream(chk, n_calls) if not chk.violations else {}
+    chk.notes["wrapper_getattr_stream"] = attr_stats
+    chk.notes["dummy_indexed_calls_stream"] = calls_stats
+    chk.coverage["evaluations"] = len(cases) + attr_stats.get("cases", 0) + calls_stats.get("cases", 0)
+    chk.coverage["traces_validated_against_impl"] = len(cases) + attr_stats.get("cases", 0) + calls_stats.get("cases", 0)
     chk.coverage["distinct_nontrivial"] = len(distinct)
     chk.coverage["rule"] = ("random op lists (reset/step/seed/set_options(dict|list), 20-60 ops on DummyVecEnv n_envs 1-5, 12-30 ops on SubprocVecEnv n_envs 1-3) over scripted "
                             "sub-environments cycling through 10 observation-space kinds and 5 action-space kinds; boundary-biased scripts (length-1 episodes, terminated and "
